@@ -89,6 +89,8 @@ func zzNewPipeConnH(nc *zzPipe, handler HandlerFunc, maxSize uint32) *Conn {
 
 func zzNewPipeConnMon(nc *zzPipe, mon InactivityMonitor) *Conn { return zzNewPipeConnX(nc, nil, 1152, mon) }
 
+var zzPipeRequestMonitor RequestMonitorFunc // optional request monitor for the next connection created
+
 func zzNewPipeConnX(nc *zzPipe, handler HandlerFunc, maxSize uint32, mon InactivityMonitor) *Conn {
 	cfg := Config{}
 	cfg.Ctx = context.Background()
@@ -109,6 +111,10 @@ func zzNewPipeConnX(nc *zzPipe, handler HandlerFunc, maxSize uint32, mon Inactiv
 	cfg.CloseSocket = true
 	if mon != nil {
 		return NewConnWithOpts(coapNet.NewConn(nc), &cfg, WithInactivityMonitor(mon))
+	}
+	if rm := zzPipeRequestMonitor; rm != nil {
+		zzPipeRequestMonitor = nil
+		return NewConnWithOpts(coapNet.NewConn(nc), &cfg, WithRequestMonitor(rm))
 	}
 	return NewConnWithOpts(coapNet.NewConn(nc), &cfg)
 }
